@@ -10,7 +10,7 @@ retained singular subspace) and minimises E|s_on - R s_off|^2; hence the formula
 shape decides the normal-equation clause for all matrices and conditionings.
 Not decided: the duplicate-sensor clause (needs covariance values); rounding.
 """
-from ..common import get_index, nf, check_equal
+from ..common import get_index, nf, check_equal, same_value
 from ..interp import Interp, has_unknown, Obj
 from ..plf import Rat, Sym, Fn
 from ..report import AnalysisError
@@ -71,7 +71,13 @@ def run(rep, tier, root=None):
     want2 = Rat.atom(Fn("call:" + f.fq, (Rat.sym("self.covariance_matrix", ("attr",)),
                                         Rat.atom(Fn("getitem", (Rat.sym("self.n_subaps", ("attr",)), Rat.const(0)))), cond)))
     if len(r2) != 1:
-        rep.unknown("S2.wrapper", g.fq, "expected one path", g.where())
+        stale = [(c_, v_) for c_, v_ in r2 if not same_value(v_, want2)]
+        if stale and all(isinstance(v_, Rat) and not has_unknown(v_) for c_, v_ in stale):
+            rep.violation("S2.wrapper", g.fq + ": every call recomputes the reconstructor from the current covariance matrix",
+                          "on the path %s the method returns %s without recomputing it: after the covariance matrix has been rebuilt the "
+                          "reconstructor of the earlier matrix is handed out" % (list(stale[0][0]), nf(stale[0][1], 100)), g.where())
+        else:
+            rep.unknown("S2.wrapper", g.fq, "expected one path", g.where())
     else:
         check_equal(rep, "S2.wrapper", g.fq + " == create_...(self.covariance_matrix, self.n_subaps[0], svd_conditioning)", r2[0][1],
                     want2, g.where(), what="wrapper call")
